@@ -151,6 +151,7 @@ def one_case(ctx, LP, op, A, B, extra):
     model_err = mo.startswith("err:")
     if py[0] == "assert":
         ctx.count("py-assert")
+        ctx.count("refused-by-both:%s:%s" % (op, mo[:20]) if model_err else "py-assert-only:" + op)
         if not model_err:
             bad("python-asserts-model-returns", py[1])
         return
